@@ -4,6 +4,7 @@ import (
 	"fmt"
 	"go/ast"
 	"go/token"
+	"go/types"
 	"regexp"
 	"strings"
 
@@ -24,6 +25,7 @@ func runC08(c *core.Ctx) core.Meta {
 
 	// ---------------- R08.1 one work-group counting formula ----------------
 	checkWGCountFormula(c, prov, "R08.1", []string{kernelsPkg, driverPkg, emuPkg, cuPkg}, 12)
+	checkBuilderReinitialised(c, "R08.6")
 
 	// ---------------- R08.5 every work-group is handed out once by the placement algorithms (c09.go) ----------------
 	checkPlacementSiblings(c, NewPkgInfo(c, dispPkg), prov, "R08.5")
@@ -426,4 +428,101 @@ func checkWGCountFormula(c *core.Ctx, prov *core.Prov, rule string, pkgs []strin
 		}
 	}
 
+}
+
+// checkBuilderReinitialised (R08.6): a grid builder is reused for kernel after kernel (the
+// dispatchers keep one for the life of the command processor). Every field of the builder that
+// the enumeration changes incrementally - the work-group cursor, a count that is accumulated over
+// the filter - has to be set afresh by SetKernel before it is incremented or read again:
+// otherwise the second kernel on a builder continues from the first one's value (a filtered
+// launch announces the previous count plus its own).
+func checkBuilderReinitialised(c *core.Ctx, rule string) {
+	st := c.Rule(rule, "SetKernel re-initialises every field of the grid builder that the enumeration updates incrementally (fields stored as f+k / f-k anywhere in the package: the cursor xid/yid/zid, the accumulated work-group count): on every path through SetKernel, helpers expanded, a store of a value that does not depend on the field's old value comes before the first increment of the field and before SetKernel returns. A builder is reused for every kernel of a dispatcher, so a field that is only incremented announces (or resumes from) the previous kernel's value", 3)
+	pi := NewPkgInfo(c, kernelsPkg)
+	if pi.Pkg == nil {
+		return
+	}
+	set := c.MustFunc(rule, kernelsPkg, "gridBuilderImpl.SetKernel")
+	if set == nil {
+		return
+	}
+	derives := func(v ssa.Value, f *types.Var) bool {
+		seen := map[ssa.Value]bool{}
+		var walk func(v ssa.Value, d int) bool
+		walk = func(v ssa.Value, d int) bool {
+			if seen[v] || d > 6 {
+				return false
+			}
+			seen[v] = true
+			if core.LoadedField(v) == f {
+				return true
+			}
+			switch x := v.(type) {
+			case *ssa.BinOp:
+				return walk(x.X, d+1) || walk(x.Y, d+1)
+			case *ssa.Convert:
+				return walk(x.X, d+1)
+			case *ssa.Phi:
+				for _, e := range x.Edges {
+					if walk(e, d+1) {
+						return true
+					}
+				}
+			}
+			return false
+		}
+		return walk(v, 0)
+	}
+	fieldStore := func(in ssa.Instruction) (*types.Var, *ssa.Store) {
+		sto, ok := in.(*ssa.Store)
+		if !ok {
+			return nil, nil
+		}
+		fa, ok := sto.Addr.(*ssa.FieldAddr)
+		if !ok || !strings.HasSuffix(namedTypeName(fa.X.Type()), "gridBuilderImpl") {
+			return nil, nil
+		}
+		return fieldOfStruct(fa.X.Type(), fa.Field), sto
+	}
+	incremental := map[*types.Var]bool{}
+	var order []*types.Var
+	for _, fn := range pi.Funcs {
+		for _, b := range fn.Blocks {
+			for _, in := range b.Instrs {
+				if f, sto := fieldStore(in); f != nil && derives(sto.Val, f) && !incremental[f] {
+					incremental[f] = true
+					order = append(order, f)
+				}
+			}
+		}
+	}
+	c.MarkAnalysed(set)
+	g := core.BuildGraph(set, 3, func(cal *ssa.Function) bool { return cal.Pkg == set.Pkg })
+	for _, f := range order {
+		f := f
+		st.Instances++
+		bad := ""
+		var at token.Pos
+		okW := g.Walk([]core.State{{N: g.Entry}}, core.WalkOpts{ForwardOnly: true, Stop: func(n *core.Node) bool {
+			ff, sto := fieldStore(n.Instr)
+			return ff == f && !derives(sto.Val, f)
+		}}, func(x core.State) {
+			if bad != "" {
+				return
+			}
+			if ff, sto := fieldStore(x.N.Instr); ff == f && derives(sto.Val, f) {
+				bad, at = "is incremented in "+core.FuncName(x.N.Fn())+" before it was set", sto.Pos()
+			}
+			if r, ok := x.N.Instr.(*ssa.Return); ok && x.N.Frame.Parent == nil {
+				bad, at = "is still the previous kernel's when SetKernel returns", r.Pos()
+			}
+		})
+		st.Ob(bad == "" && okW)
+		st.Sample("SetKernel sets %s afresh before it is incremented or returned: %v", f.Name(), bad == "")
+		if !okW {
+			c.Undecided(rule, set, set.Pos(), "reinit:"+f.Name(), "state cap reached")
+		} else if bad != "" {
+			c.ReportAt(rule, set, at, "not-reinitialised:"+f.Name(), "on a path through SetKernel the builder's "+f.Name()+" "+bad+": a builder that is reused for the next kernel (every dispatcher keeps one) continues from the previous kernel's value - a filtered launch announces the previous NumWG plus its own work-groups, the dispatcher waits for completions that never come")
+		}
+	}
 }
